@@ -3,6 +3,7 @@ package main
 import (
 	"fmt"
 	"go/token"
+	"sort"
 	"strings"
 
 	"golang.org/x/tools/go/ssa"
@@ -303,19 +304,57 @@ func c08InPlaceByFlagOnly(c *Ctx) {
 		return
 	}
 	isFlag := func(o string) bool { return o == "field:extractOptions.inPlace" }
-	for _, call := range calls(fn, named("cmd.writeInplace")) {
-		acc := func(iff *ssa.If) (bool, bool) {
-			if !onlyOrigins(iff.Cond, isFlag) {
-				return false, false
-			}
-			if u, ok := iff.Cond.(*ssa.UnOp); ok && u.Op == token.NOT {
-				return false, true
-			}
-			return true, false
+	acc := func(iff *ssa.If) (bool, bool) {
+		if !onlyOrigins(iff.Cond, isFlag) {
+			return false, false
 		}
-		okG, _ := guarded(fn, call, acc)
-		c.verdict(okG, "cmd.runExtract:writeInplace", call.Pos(), "in-place assembly only behind the true edge of opt.inPlace",
-			"writeInplace (assembly directly into the destination) is reachable without opt.inPlace being set: an interrupted extract leaves a partial file under the destination name")
+		if u, ok := iff.Cond.(*ssa.UnOp); ok && u.Op == token.NOT {
+			return false, true
+		}
+		return true, false
+	}
+	inPlaceFn := func(f *ssa.Function) bool {
+		k := fnKey(f)
+		return k == "cmd.writeInplace" || k == "AssembleFile"
+	}
+	sites := 0
+	for _, call := range calls(fn, func(string) bool { return true }) {
+		if call.Parent() != fn {
+			continue
+		}
+		if f := call.Common().StaticCallee(); f != nil {
+			if !inPlaceFn(f) {
+				continue
+			}
+			sites++
+			okG, _ := guarded(fn, call, acc)
+			c.verdict(okG, "cmd.runExtract:writeInplace", call.Pos(), "in-place assembly only behind the true edge of opt.inPlace",
+				"assembly directly into the destination is reachable without opt.inPlace being set: an interrupted extract leaves a partial file under the destination name")
+			continue
+		}
+		if call.Common().IsInvoke() {
+			continue
+		}
+		// a call through a function variable ("write := writeWithTmpFile; if opt.inPlace { write = AssembleFile }"):
+		// the in-place alternative may only be chosen behind the flag
+		for _, def := range funcValueDefs(call.Common().Value) {
+			if def.fn == nil || !inPlaceFn(def.fn) {
+				continue
+			}
+			sites++
+			okSel := false
+			if def.at != nil {
+				okSel, _ = guarded(fn, def.at, acc)
+			} else if def.in != nil {
+				edges := acceptingEdgesDeep(fn, acc, 0)
+				okSel = edges[*def.in] || !reachable(fn, edges)[def.in.from]
+			}
+			c.verdict(okSel, "cmd.runExtract:writeInplace", call.Pos(), "the in-place alternative of the assembly function is selected only behind opt.inPlace",
+				"assembly directly into the destination can be selected without opt.inPlace being set: an interrupted extract leaves a partial file under the destination name")
+		}
+	}
+	if sites == 0 {
+		c.bad("cmd.runExtract:writeInplace", fn.Pos(), "no in-place assembly path found in runExtract")
 	}
 	stores := 0
 	for _, f := range c.subjects() {
@@ -393,6 +432,30 @@ func c08DestinationUses(c *Ctx) {
 				}
 				uses++
 				name := callee(ci)
+				if name == "" && !ci.Common().IsInvoke() {
+					// call through a function variable: every function it can hold must be allowed
+					var names []string
+					allOK := true
+					for _, def := range funcValueDefs(ci.Common().Value) {
+						if def.fn == nil {
+							allOK = false
+							continue
+						}
+						n := "cmd." + strings.TrimPrefix(fnKey(def.fn), "cmd.")
+						if def.fn.Pkg == c.LibSSA {
+							n = "desync." + fnKey(def.fn)
+						}
+						names = append(names, n)
+						if _, ok := c08DestinationAllowed[n]; !ok && n != "desync.AssembleFile" {
+							allOK = false
+						}
+					}
+					sort.Strings(names)
+					key := "cmd.runExtract:destination->" + strings.Join(names, "|")
+					c.verdict(allOK && len(names) > 0, key, ins.Pos(), "function variable holding only the two assembly paths (the in-place one is checked by C08.in-place-by-flag-only)",
+						"the destination name is passed to a function variable that can hold something else than the two assembly paths")
+					continue
+				}
 				key := "cmd.runExtract:destination->" + name
 				why, ok := c08DestinationAllowed[name]
 				switch {
@@ -409,4 +472,51 @@ func c08DestinationUses(c *Ctx) {
 	if uses < 3 {
 		c.bad("cmd.runExtract:destination", fn.Pos(), "only %d uses of the destination argument found", uses)
 	}
+}
+
+// funcValueDefs lists what a function-typed value can be: for a phi each incoming function with its
+// edge, for a local variable each stored function with its store.
+type funcDef struct {
+	fn *ssa.Function
+	at ssa.Instruction // the store that assigns it (variable form)
+	in *edge           // the phi edge that brings it
+}
+
+func funcValueDefs(v ssa.Value) []funcDef {
+	var out []funcDef
+	seen := map[ssa.Value]bool{}
+	var walk func(v ssa.Value, in *edge, at ssa.Instruction, d int)
+	walk = func(v ssa.Value, in *edge, at ssa.Instruction, d int) {
+		if v == nil || seen[v] || d > 6 {
+			return
+		}
+		seen[v] = true
+		switch x := v.(type) {
+		case *ssa.Function:
+			out = append(out, funcDef{x, at, in})
+		case *ssa.MakeClosure:
+			if f, ok := x.Fn.(*ssa.Function); ok {
+				out = append(out, funcDef{f, at, in})
+			}
+		case *ssa.ChangeType:
+			walk(x.X, in, at, d+1)
+		case *ssa.Phi:
+			for k, e := range x.Edges {
+				ed := edge{x.Block().Preds[k], x.Block()}
+				walk(e, &ed, nil, d+1)
+			}
+		case *ssa.UnOp:
+			if al, ok := x.X.(*ssa.Alloc); ok && x.Op == token.MUL {
+				for _, st := range storesTo(al) {
+					walk(st.Val, nil, st, d+1)
+				}
+				return
+			}
+			out = append(out, funcDef{nil, at, in})
+		default:
+			out = append(out, funcDef{nil, at, in})
+		}
+	}
+	walk(v, nil, nil, 0)
+	return out
 }
